@@ -590,7 +590,7 @@ pub struct C03 {
 	lossy_restarts: Vec<u64>,
 	start_cap: Option<u64>,
 	pub stats: C03Stats,
-	/// exact accounting profile: no on-chain activity expected
+	/// step of the log entry being evaluated (for diagnostics)
 	pub failure_step: u64,
 }
 
@@ -1167,6 +1167,11 @@ impl C03 {
 			let (ids, hashes) = sim.c03_inflight();
 			for i in absent {
 				let m = &self.meta[i];
+				// (a payment whose PaymentSent the user already handled is rightly forgotten while the peer's on-chain
+				// preimage claim of its HTLC is not yet buried; the statement is about payments of unknown outcome)
+				if !m.sent_obs.is_empty() {
+					continue;
+				}
 				if ids.contains(&m.id.0) || hashes.contains(&m.hash) {
 					return Err(fail(
 						"unlisted-payment-in-flight",
@@ -1441,7 +1446,7 @@ impl C03 {
 					)
 					// exact signature of a suspected defect: a crash lost monitor updates that were still in flight after
 					// the payment was sent (e.g. S had already broadcast the commitment transaction they describe)
-					.with_key(format!("no-terminal-event/{}{}", recent.get(&m.id.0).unwrap_or(&"unlisted"), if self.broadcast_before_durable(sim, &parts) { "/restart-lost-inflight-monitor-updates" } else { "" })));
+					.with_key(if self.broadcast_before_durable(sim, &parts) { "no-terminal-event/pending/restart-lost-inflight-monitor-updates".to_string() } else { format!("no-terminal-event/{}", recent.get(&m.id.0).unwrap_or(&"unlisted")) }));
 				}
 			}
 			if !m.api_ok && terminal && !m.api.contains("Ok(") {
